@@ -103,6 +103,34 @@ impl Call {
 
 /// A pool of calls built from one shared-suffix family, so that a leaked suffix table or cache
 /// *would* change an output (a pool of unrelated packets could not see such a leak).
+/// Look-alike pairs (A, B): B has A's length and differs from it in one byte inside a name that is only
+/// reached through pointers (name-shaped bytes in opaque rdata). A verdict on A must not carry over to B.
+pub fn lookalike_pairs(rng: &mut Rng) -> Vec<(Call, Call)> {
+    let mut out = vec![];
+    for _ in 0..12 {
+        let cfg = Cfg { compress_eighths: 7, max_records: 8, alphabet: 3, ..Default::default() };
+        let v = gen_valid(rng, &cfg);
+        if v.opaque_spans.is_empty() || v.pointers == 0 {
+            continue;
+        }
+        for _ in 0..3 {
+            let (off, len) = *rng.pick(&v.opaque_spans);
+            let mut b = v.bytes.clone();
+            let k = off + rng.below(len);
+            b[k] = match rng.below(4) {
+                0 => 0x40,
+                1 => b'.',
+                2 => 0x00,
+                _ => b[k] ^ 0x80,
+            };
+            if b != v.bytes {
+                out.push((Call::Parse(v.bytes.clone()), Call::Parse(b)));
+            }
+        }
+    }
+    out
+}
+
 pub fn pool(rng: &mut Rng) -> Vec<Call> {
     let cfg = Cfg { alphabet: 3, mixed_case: true, long_names: false, ..Default::default() };
     let zone = Name(vec![gen_label(rng, &cfg), b"example".to_vec(), b"com".to_vec()]);
@@ -278,6 +306,29 @@ pub fn run(ctx: &mut Ctx) {
                 ctx.count("sequential_evaluations");
                 if hash_bytes(&calls[i].eval()) != base[i] {
                     report(ctx, i, "after-earlier-calls-on-the-thread");
+                }
+            }
+        }
+        // (a') look-alike pairs evaluated back to back, in both orders
+        if case % 4 == 0 {
+            for (a, b) in lookalike_pairs(&mut rng) {
+                let (ha, hb) = (hash_bytes(&a.eval()), hash_bytes(&b.eval()));
+                // the reference for each: evaluated after an unrelated call of a different size
+                let unrelated = Call::Synth("x.example. 1 IN A 1.2.3.4".into());
+                let _ = unrelated.eval();
+                let ra = hash_bytes(&a.eval());
+                let _ = unrelated.eval();
+                let big = Call::Parse(vec![0u8; 4000]);
+                let _ = big.eval();
+                let rb = hash_bytes(&b.eval());
+                let hb2 = {
+                    let _ = a.eval();
+                    hash_bytes(&b.eval())
+                };
+                ctx.evaluations += 6;
+                ctx.count("lookalike_pairs");
+                if ha != ra || hb != rb || hb2 != rb {
+                    ctx.violation("C17", "parse|result-depends-on-the-previous-input".into(), "parse of a packet gives a different result right after parsing a same-length look-alike".into(), b.encode().as_bytes());
                 }
             }
         }
